@@ -65,6 +65,7 @@ fn main() {
             "life" => life::run(&case),
             "exec" => exec::run(&case),
             "status" => exec::run_status(&case),
+            "latch" => exec::run_latch(&case),
             other  => panic!("unknown case kind '{other}'"),
         };
         let text: Vec<String> = trace.iter().map(|v| v.to_string()).collect();
